@@ -455,7 +455,31 @@ func genInside(t *rapid.T) ptCase {
 	g := newGeom(uint64(id))
 	clamp := func(x, lo, hi float64) float64 { return math.Max(lo, math.Min(hi, x)) }
 	var u, v float64
-	switch rapid.IntRange(0, 6).Draw(t, "imode") {
+	switch rapid.IntRange(0, 9).Draw(t, "imode") {
+	case 7, 8, 9:
+		// 0..4 ulps inside a corner in u and in v (the corners are where the
+		// bounding cap and rectangle are attained)
+		u = rapid.SampledFrom([]float64{b.X.Lo, b.X.Hi}).Draw(t, "u")
+		v = rapid.SampledFrom([]float64{b.Y.Lo, b.Y.Hi}).Draw(t, "v")
+		if rapid.IntRange(0, 2).Draw(t, "far") > 0 {
+			// the corner farthest from the centre of the bounding cap (only steers the generator)
+			ctr, best := c.CapBound().Center(), -1.0
+			for _, cu := range []float64{b.X.Lo, b.X.Hi} {
+				for _, cv := range []float64{b.Y.Lo, b.Y.Hi} {
+					if d := fromUV(c.Face(), cu, cv).Sub(ctr.Vector).Norm2(); d > best {
+						best, u, v = d, cu, cv
+					}
+				}
+			}
+		}
+		ku, kv := rapid.IntRange(0, 4).Draw(t, "ku"), rapid.IntRange(0, 4).Draw(t, "kv")
+		if u == b.X.Hi {
+			ku = -ku
+		}
+		if v == b.Y.Hi {
+			kv = -kv
+		}
+		u, v = gen.Ulps(u, ku), gen.Ulps(v, kv)
 	case 0, 5, 6:
 		u = b.X.Lo + rapid.Float64Range(0, 1).Draw(t, "fu")*(b.X.Hi-b.X.Lo)
 		v = b.Y.Lo + rapid.Float64Range(0, 1).Draw(t, "fv")*(b.Y.Hi-b.Y.Lo)
@@ -555,7 +579,11 @@ func checkBounds(c ptCase) ev.Outcome {
 	ctr := hp.Vec(cap.Center().Vector)
 	d2 := hp.Float(hp.Chord2(ctr, hp.Vec(p.Vector)))
 	if !cap.ContainsPoint(p) {
-		count(&o, "CapBound.ContainsPoint false for a cell point (rounding-level)")
+		// strict since /repo 8e82816 rounds the radius up (before that, misses by an
+		// ulp were the finding F41 of C10 and only counted here)
+		o.Err = fmt.Sprintf("CapBound (centre %v, squared chord radius %.17g) does not contain a point of the cell at squared chord %.17g", cap.Center().Vector, rad, d2)
+		o.Finding = "cell-capbound-misses-point"
+		return o
 	}
 	if d2 > rad {
 		ratio(&o, "cap excess/capTol", (d2-rad)/capTol)
@@ -900,8 +928,8 @@ func init() {
 		Rule:  "quarter: point with (u,v) within 8 ulps of leaf-resolution boundary values (3/4 in the s,t band [0.2,0.3) where the uv->st->ij round trip is least accurate) and its leaf cell or an ancestor; quarter: arbitrary/cell-derived point and an ancestor (any level) of CellFromPoint(p); half: point placed relative to a cell. Leaf id within the cell's id range ⇒ ContainsPoint; point in the exact closed cell (decided exactly) ⇒ ContainsPoint; outside by more than 2ε(1+|u|) or on the wrong side of the face plane ⇒ not contained. Non-trivial = |uv margin| ≤ 8ε, or leaf-range and exact membership disagree.",
 		Quick: 800000, Thorough: 16000000}, genContains, checkContains)
 	ev.Define("bounds", ev.Options{
-		Rule:  "points decided exactly to lie in the closed exact cell (interior, on sides, at corners, moved ≤ 8 ulps inward if rounding put them outside): RectBound contains LatLngFromPoint(p) and the four vertices (strict), CapBound contains p and the exact corners up to 10ε·r+4ε·√r (strict ContainsPoint misses are counted). Non-trivial = within 1e-6 of the cell size of the boundary.",
-		Quick: 50000, Thorough: 2500000}, genInside, checkBounds)
+		Rule:  "points decided exactly to lie in the closed exact cell (interior, on sides, at corners, 0..4 ulps of u and v inside a corner, moved ≤ 8 ulps inward if rounding put them outside): RectBound contains LatLngFromPoint(p) and the four vertices (strict), CapBound.ContainsPoint(p) strictly, and the exact corners up to 10ε·r+4ε·√r. Non-trivial = within 1e-6 of the cell size of the boundary.",
+		Quick: 500000, Thorough: 6000000}, genInside, checkBounds)
 	ev.Define("children", ev.Options{
 		Rule:  "random cell id; walk from the face cell along its child positions: at every level all four Children() are bit-identical (struct equality, incl. unexported orientation) to CellFromCellID(child id), ids match the bit layout, BoundUV of all four matches the lattice model, and for the followed child (all four at the last level) every exported accessor (BoundUV, VertexRaw, Vertex, EdgeRaw, Edge, Center, IJ/UVCoordOfEdge, SizeIJ/ST, IsLeaf) matches the lattice model decoded from the id bits; uv bounds within 2ε of the exact quadratic transform. Non-trivial = level ≥ 1.",
 		Quick: 5000, Thorough: 150000}, genID, checkChildren)
